@@ -144,6 +144,14 @@ def stepM (st : St) (toks : List String) : St × List String :=
       let x := applyValues d old vs (hv.zip hc) c total h
       (setM st r x, [s!"drew={b01 (decide (0 < total) && needsDraw old.v c h)}", showV x.v])
     | _, _, _, _, _, _, _, _ => bad st
+  | ["load", r, k, xs] => match reg? r 16, k.toNat?, parseNatList? xs with
+    | some r, some k, some xs =>
+      if xs.any (· ≥ 4294967296) then bad st else
+      let w : Unique.Wire := { k := k, ic := xs.length, xs := xs }
+      let x := { st.m[r]! with u := unmarshal SV P w }
+      let b := UTable.unmarshal SV P w
+      (setB (setM st r x) r b, [showU x.u, showB b])
+    | _, _, _ => bad st
   | ["ins", r, v] => match reg? r 16, v.toNat? with
     | some r, some v =>
       if v ≥ 18446744073709551616 then bad st else
